@@ -93,3 +93,17 @@ Example ex_identity_keyed_memo_is_stale :
   let '(r2, _) := memo_read m1 h2 0 in
   r1 = Some 5%Z /\ r2 = Some 5%Z /\ pure_read h2 0 = Some 7%Z /\ r2 <> pure_read h2 0.
 Proof. cbn. repeat split; try reflexivity. discriminate. Qed.
+
+(* Wave 11.  Scaling is REAL multiplication of the translation whatever representation the caller used for it: in the
+   model a translation is a vector of reals (C16_scale_uniform: trans P' = smul (trans P) s for every P and s).  A
+   whole-number translation (0,0,2) (written with Python ints or an int64 array) scaled by 5/4 becomes (0,0,5/2); it does
+   not stay (0,0,2), which is what truncating the product back to an integer dtype yields. *)
+Example ex_integer_valued_translation_scales :
+  let P := MkPose (mid Rops) (V3 0 0 2) in
+  trans (pscale Rops P (5 / 4)) = V3 0 0 (5 / 2) /\ trans (pscale Rops P (5 / 4)) <> V3 0 0 2 /\
+  rot (pscale Rops P (5 / 4)) = rot P.
+Proof.
+  cbn zeta. unfold pscale. cbn [trans rot]. split; [|split; [|reflexivity]].
+  - unf. apply vec_eq; field.
+  - unf. intro H. injection H as H. lra.
+Qed.
